@@ -28,7 +28,8 @@ EXPLANATION = (
     'R-C07.6 no handler for a broad exception class (Exception, database '
     'errors) in any function reachable from Evolver.evolve can continue '
     'normally (no swallowed failure on the execution path); '
-    'R-C07.2 also requires that no atomic() is opened with savepoint=False (inside a caller\'s transaction nothing could be rolled back).')
+    'R-C07.2 also requires that no atomic() is opened with savepoint=False (inside a caller\'s transaction nothing could be rolled back); '
+    'R-C07.5 (as rewritten) under the default valuation (transactional group, no explicit new-transaction mark) no committing call is reachable in run_sql, and the explicit mark of a batch derives only from the statements\' own mark; R-C07.7 register_global_custom_migrations() is released on every exit, exceptional ones included; R-C07.8 deferred SQL of new models runs in the executor scope that created them (known finding).')
 NOT_DECIDED = (
     'Actual rollback behaviour of SQLite/Django for every failing statement '
     'index, and retry equivalence: these need execution (fault enumeration) '
